@@ -61,10 +61,48 @@ def rules(ctx):
             den = "capacity" if call(VT + "::capacity") in b else ("seats" if call(VT + "::seats") in b else "?")
             pairs.add((num, den))
         rs = fd2.ret_slice()["atoms"]
-        ok = pairs == {("passengers", "capacity"), ("seated", "seats")} and has_method(rs, "core::cmp::Ord::max") \
-            and "param:2" in rs and "param:3" in rs
-        ctx.decide(o, ok, "passengers/capacity and seated/seats, combined with max", "divisions pair %s%s" % (
-            sorted(pairs), "" if has_method(rs, "core::cmp::Ord::max") else " and are not combined with max"))
+        # combined with max: Ord::max, or the larger one selected by an explicit comparison of the two quotients
+        combined = has_method(rs, "core::cmp::Ord::max")
+        form = "max"
+        if not combined and len(divs) == 2:
+            dl = {c.dest.local for c in divs if c.dest is not None}
+            for ins in fd2.body.instrs():
+                cmp_ops = None
+                if ins.kind == "assign" and ins.rv_kind() == "binop" and ins.rv["op"] in ("Lt", "Le", "Gt", "Ge"):
+                    cmp_ops = ins.ops
+                elif ins.kind == "call" and (ins.decl or "").startswith("core::cmp::PartialOrd::") and len(ins.args) == 2:
+                    cmp_ops = ins.args
+                if cmp_ops is None:
+                    continue
+                roots = set()
+                for op in cmp_ops:
+                    roots |= {l for l in fd2.slice_operand_pure(ins, op)["locals"] if l in dl}
+                if roots == dl:
+                    # the comparison must select the larger one: `a > b => a` / `a < b => b`
+                    gt = ins.rv["op"] in ("Gt", "Ge") if ins.kind == "assign" else (ins.decl or "").split("::")[-1] in ("gt", "ge")
+                    first = root_local(fd2, cmp_ops[0].place.local) if cmp_ops[0].place is not None else None
+                    cl = ins.place.local if ins.kind == "assign" else ins.dest.local
+                    sw = [s_ for s_, _u in fd2.switches.values() if s_.ops and s_.ops[0].place is not None
+                          and cl in (fd2.slice_operand_pure(s_, s_.ops[0])["locals"] | {s_.ops[0].place.local})]
+                    if sw:
+                        s0 = sw[0]
+                        t_true = s0.otherwise
+                        # the value returned on the true edge
+                        rets = [d for d in fd2.defs.get(0, ()) if d.instr is not None and d.instr.kind == "assign"]
+                        pick = None
+                        for d in rets:
+                            if fd2.cfg.dominates(t_true, d.instr.bb) and d.instr.ops and d.instr.ops[0].place is not None:
+                                pick = root_local(fd2, d.instr.ops[0].place.local)
+                        if pick is not None and first is not None:
+                            larger_selected = (pick == first) == gt
+                            combined = larger_selected
+                            form = "explicit comparison selecting the larger quotient" if larger_selected else "comparison selects the SMALLER quotient"
+        ok = pairs == {("passengers", "capacity"), ("seated", "seats")} and combined and "param:2" in rs and "param:3" in rs
+        if pairs == {("passengers", "capacity"), ("seated", "seats")} and not combined and form == "max" and not has_method(rs, "core::cmp::Ord::min"):
+            ctx.undecided(o, "the two quotients are combined in a form that is not recognised (neither max nor a comparison)")
+        else:
+            ctx.decide(o, ok, "passengers/capacity and seated/seats, combined with %s" % form, "divisions pair %s%s" % (
+                sorted(pairs), "" if combined else " and are not combined with max (%s)" % form))
     limit_combination(ctx)
     objective.level_order(ctx, "R3")
     unserved_is_a_sum(ctx, "R3")
